@@ -79,8 +79,9 @@ func (cs *CacheStorage) GetWithoutLock(key []byte, object CacheObject) (interfac
 		fmt.Printf("Error in CacheStorage.Get(): %s\n", err.Error())
 		return nil, true
 	}
-	// add to cache
-	cs.Cache.Add(hex.EncodeToString(key), res)
+	// add to cache (through the flush-aware helper: a bare Cache.Add on a full cache would evict
+	// the oldest entry without writing it to the db)
+	cs.SetWithoutLockAndSealCheck(hex.EncodeToString(key), res)
 	return res, true
 }
 
